@@ -24,6 +24,7 @@ type ProgOpt struct {
 	MaxWidth   int  // literal member count
 	Zones      bool // environment times in several zones
 	NoStringOf bool // avoid string()/print renderings (whose text is only characterised)
+	HostEnv    bool // environment types expressible as Go host data (optionals only as object fields / bindings)
 }
 
 // G generates well-typed programs by type-directed construction. The
@@ -323,7 +324,7 @@ func (g *G) keyExpr(kt *m.Type, fuel int) *m.Expr {
 // ---------------------------------------------------------------- expressions
 
 func (g *G) anyType(depth int) *m.Type {
-	t := Type(g.T, TypeOpt{Depth: depth, Maybe: g.O.Maybe, MaxFields: 3})
+	t := Type(g.T, TypeOpt{Depth: depth, Maybe: g.O.Maybe, MaxFields: 3, MaybeInFields: g.O.HostEnv})
 	if !g.O.Times {
 		t = noTime(t)
 	}
